@@ -139,13 +139,13 @@ func checkC07(c *core.Ctx) {
 		c07Run(c, w.Witness.Scenario)
 		return
 	}
-	n := c.N(300, 5000)
+	n := c.N(300, 60000)
 	for idx := 0; idx < n; idx++ {
 		if c.Mine(idx) {
 			c07Run(c, c07Scenario(c, idx))
 		}
 	}
-	nh := c.N(20, 300)
+	nh := c.N(20, 2000)
 	for idx := 0; idx < nh; idx++ {
 		if c.Mine(idx) {
 			c07Stored(c, idx)
